@@ -1,4 +1,5 @@
 import PhysisModel.Proofs.SoftFloat
+import PhysisModel.Proofs.MdlHeaders
 import PhysisModel.Model.MdlWrite
 import PhysisModel.Spec.MdlEdit
 /-!
@@ -23,5 +24,69 @@ identity on no byte but 0 -/
 theorem c07_blendweights_byte4_witness :
     ∀ b : UInt8, writeByteFloat42 (readTangentXYZ b) = b ↔ b = 0 :=
   byte42_fixed_iff
+
+/-! ## header self-consistency over all edit histories
+
+`HeaderOK` (`Proofs/MdlHeaders.lean`): the three `MeshLod` rows form a chain — LOD 0's vertex section
+starts at `0x44 + stack_size + runtime_size`, every index section starts where its vertex section
+ends, the next LOD where the index section ends (hence pairwise disjoint, ordered, after the
+runtime block); every row's vertex size is Σ vertex count × Σ stream strides over its meshes; its
+index size is `(E/16 + 1)·16 mod 2³²` with `E` the largest `2·(start_index + index_count)` of its
+meshes; `stack_size = declarations·136`; `runtime_size = calculate_runtime_size`; the file-header
+arrays repeat the rows of the parsed LODs; shape counts match the tables; and (for used LODs owning
+disjoint mesh ranges) the stream offsets of every mesh are the running sums — disjoint, inside the
+vertex section. -/
+
+/-- **Invariant over all edit histories** (induction over the edit list; every operation
+re-establishes it because it ends in `update_headers`): after any sequence of
+`replace_vertices` / `remove_shape_meshes` / `add_shape_mesh` calls with arbitrary arguments that
+does not panic, the headers are self-consistent. -/
+theorem c07_headers_consistent (es : List Edit) (m m' : MDL) (h0 : HeaderOK m)
+    (h : es.foldlM Mdl.applyEdit m = .ok m') : HeaderOK m' :=
+  headers_consistent es m m' h0 h
+
+/-- … and a non-empty history needs no assumption on the model it starts from -/
+theorem c07_headers_consistent_after_edit (es : List Edit) (hne : es ≠ []) (m m' : MDL)
+    (h : es.foldlM Mdl.applyEdit m = .ok m') : HeaderOK m' :=
+  headers_consistent_of_ne_nil es hne m m' h
+
+/-- the section layout in the words of the property: for the three LOD rows, offsets chain from the
+end of the runtime block, each section starting where the previous one ends -/
+theorem c07_sections_chain {m : MDL} (h : HeaderOK m) {l0 l1 l2 : MeshLod}
+    (h3 : m.modelData.lods = [l0, l1, l2]) :
+    l0.vertexDataOffset.toNat = 68 + m.fileHeader.stackSize.toNat + m.fileHeader.runtimeSize.toNat ∧
+    l0.indexDataOffset.toNat = l0.vertexDataOffset.toNat + l0.vertexBufferSize.toNat ∧
+    l1.vertexDataOffset.toNat = l0.indexDataOffset.toNat + l0.indexBufferSize.toNat ∧
+    l1.indexDataOffset.toNat = l1.vertexDataOffset.toNat + l1.vertexBufferSize.toNat ∧
+    l2.vertexDataOffset.toNat = l1.indexDataOffset.toNat + l1.indexBufferSize.toNat ∧
+    l2.indexDataOffset.toNat = l2.vertexDataOffset.toNat + l2.vertexBufferSize.toNat ∧
+    l0.edgeGeometryDataOffset = l0.indexDataOffset ∧ l1.edgeGeometryDataOffset = l1.indexDataOffset ∧
+    l2.edgeGeometryDataOffset = l2.indexDataOffset :=
+  h.three_rows h3
+
+/-- index sections are 16-byte padded and (unless `2·(start+count)` comes within 16 bytes of 2³²,
+where the code's `wrapping_add` wraps to 0 — `index_padding_wrap_witness`) hold every mesh's index
+range, exceeding the largest one by 1..16 bytes -/
+theorem c07_index_section_padded {ms : List Mesh} {l : MeshLod} (h : RowOK ms l) :
+    l.indexBufferSize.toNat % 16 = 0 ∧
+    (indexExtentTo ms l.meshIndex.toNat l.meshCount.toNat < 4294967280 →
+      (∀ d, d < l.meshCount.toNat →
+        (meshAt ms (l.meshIndex.toNat + d)).indexExtent ≤ l.indexBufferSize.toNat) ∧
+      l.indexBufferSize.toNat ≤ indexExtentTo ms l.meshIndex.toNat l.meshCount.toNat + 16) :=
+  ⟨h.index_mod16, fun hw => ⟨(h.index_bounds hw).1, (h.index_bounds hw).2.2⟩⟩
+
+/-- the per-mesh stream offsets after any history on a model with three rows whose used LODs own
+disjoint mesh ranges: running sums of count × stride (pairwise disjoint ranges inside the LOD's
+vertex section: `StreamsUpTo.ordered`, `HeaderOK.stream_in_section`) -/
+theorem c07_stream_offsets (es : List Edit) (m m' : MDL) (h0 : Inv m)
+    (h : es.foldlM Mdl.applyEdit m = .ok m') (i : Nat) (hi : i < m'.fileHeader.lodCount.toNat) :
+    StreamsOK m'.modelData.meshes (lodAt m'.modelData.lods i) :=
+  history_streams es m m' h0 h i hi
+
+/-- non-vacuity: a three-edit history on the concrete consistent model `exOut` (1 LOD in use,
+2 meshes, 2 streams each) succeeds and keeps the invariant -/
+example : ∃ m', exHistory.foldlM Mdl.applyEdit exOut = .ok m' ∧ HeaderOK m' := by
+  obtain ⟨m', h⟩ := exists_ok (r := exHistory.foldlM Mdl.applyEdit exOut) (by rfl)
+  exact ⟨m', h, c07_headers_consistent exHistory exOut m' (by decide +kernel) h⟩
 
 end Physis.C07
